@@ -461,6 +461,7 @@ theorem execEvs_step (h : StepInv F sc imp allow allowG J) (hl : ImpLoads imp) :
     | skipping d r =>
       cases ev <;> simp only [execEvs] at he
       case tryEnd => cases d <;> exact ih _ _ _ _ _ hTr hJ hs he
+      case tryElse => cases d <;> exact ih _ _ _ _ _ hTr hJ hs he
       case leave =>
         cases r with
         | succ r' => exact ih _ _ _ _ _ hTr hJ hs he
@@ -564,6 +565,7 @@ theorem execEvs_step (h : StepInv F sc imp allow allowG J) (hl : ImpLoads imp) :
       | tryBegin => simp only [execEvs] at he; exact ih _ _ _ _ _ hTr hJ hs he
       | tryExcept mask => simp only [execEvs] at he; exact ih _ _ _ _ _ hTr hJ hs he
       | tryEnd => simp only [execEvs] at he; exact ih _ _ _ _ _ hTr hJ hs he
+      | tryElse => simp only [execEvs] at he; exact ih _ _ _ _ _ hTr hJ hs he
       | gbind n =>
         simp only [execEvs] at he
         exact ih _ _ _ _ _ hTr (h.gset _ _ _ _ (hG0 rfl) (Or.inr rfl) hJ) hs he
@@ -952,5 +954,168 @@ theorem importMod_within {F : Facts} {S : Nat} (hS : closedSetB F S = true) :
 
 theorem within_init (S : Nat) : Within S State.init := by
   intro c hc; simp at hc
+
+/-! ## 5. the traced interpreter is the same interpreter -/
+
+/-- `execEvsT` computes what `execEvs` computes; the trace is an extra output -/
+theorem execEvsT_fst (F : Facts) (imp : Imp) (sc : Scope) :
+    ∀ (evs : List Ev) (mode : Mode) (saved : List (State × Ns)) (loc : Ns) (σ : State) (tr : List Err),
+      (execEvsT F imp sc evs mode saved loc σ tr).1 = execEvs F imp sc evs mode saved loc σ := by
+  intro evs
+  induction evs with
+  | nil =>
+    intro mode saved loc σ tr
+    cases mode with
+    | raising x d r => cases x <;> simp only [execEvsT, execEvs]
+    | run => simp only [execEvsT, execEvs]
+    | skipping d r => simp only [execEvsT, execEvs]
+  | cons ev rest ih =>
+    intro mode saved loc σ tr
+    cases mode with
+    | raising x d r =>
+      cases ev <;> simp only [execEvsT, execEvs, ih]
+      case tryExcept mask =>
+        cases d with
+        | zero => simp only []; split <;> simp only [ih]
+        | succ d' => simp only [ih]
+      case leave =>
+        cases r with
+        | succ r' => simp only [ih]
+        | zero => cases saved with
+          | nil => rfl
+          | cons sl more => simp only [ih]
+    | skipping d r =>
+      cases ev <;> simp only [execEvsT, execEvs, ih]
+      case tryEnd => cases d <;> simp only [ih]
+      case tryElse => cases d <;> simp only [ih]
+      case leave =>
+        cases r with
+        | succ r' => simp only [ih]
+        | zero => cases saved with
+          | nil => rfl
+          | cons sl more => simp only [ih]
+    | run =>
+      cases ev <;> simp only [execEvsT, execEvs, ih]
+      all_goals ((repeat' split) <;> simp_all only)
+
+/-- the trace only grows: what was caught before stays caught -/
+theorem execEvsT_prefix (F : Facts) (imp : Imp) (sc : Scope) :
+    ∀ (evs : List Ev) (mode : Mode) (saved : List (State × Ns)) (loc : Ns) (σ : State) (tr : List Err),
+      ∃ more, (execEvsT F imp sc evs mode saved loc σ tr).2 = tr ++ more := by
+  intro evs
+  induction evs with
+  | nil =>
+    intro mode saved loc σ tr
+    cases mode with
+    | raising x d r => cases x <;> exact ⟨[], by simp only [execEvsT, List.append_nil]⟩
+    | run => exact ⟨[], by simp only [execEvsT, List.append_nil]⟩
+    | skipping d r => exact ⟨[], by simp only [execEvsT, List.append_nil]⟩
+  | cons ev rest ih =>
+    intro mode saved loc σ tr
+    cases mode with
+    | raising x d r =>
+      cases ev <;> simp only [execEvsT]
+      case tryExcept mask =>
+        cases d with
+        | zero =>
+          simp only []
+          split
+          · obtain ⟨more, hm⟩ := ih .run saved loc σ (traceCatch mask x tr)
+            rw [hm]
+            unfold traceCatch
+            cases x with
+            | ext y => exact ⟨more, rfl⟩
+            | err e =>
+              simp only []
+              split
+              · exact ⟨more, rfl⟩
+              · exact ⟨[e] ++ more, by simp⟩
+          · exact ih _ _ _ _ _
+        | succ d' => exact ih _ _ _ _ _
+      case leave =>
+        cases r with
+        | succ r' => exact ih _ _ _ _ _
+        | zero => cases saved with
+          | nil => exact ⟨[], by simp⟩
+          | cons sl more => exact ih _ _ _ _ _
+      all_goals exact ih _ _ _ _ _
+    | skipping d r =>
+      cases ev <;> simp only [execEvsT]
+      case tryEnd => cases d <;> exact ih _ _ _ _ _
+      case tryElse => cases d <;> exact ih _ _ _ _ _
+      case leave =>
+        cases r with
+        | succ r' => exact ih _ _ _ _ _
+        | zero => cases saved with
+          | nil => exact ⟨[], by simp⟩
+          | cons sl more => exact ih _ _ _ _ _
+      all_goals exact ih _ _ _ _ _
+    | run =>
+      cases ev <;> simp only [execEvsT]
+      all_goals ((repeat' split) <;> first | exact ih _ _ _ _ _ | exact ⟨[], by simp⟩)
+
+/-- code without a handler catches nothing: the trace stays as it is -/
+theorem execEvsT_no_handler (F : Facts) (imp : Imp) (sc : Scope) :
+    ∀ (evs : List Ev) (mode : Mode) (saved : List (State × Ns)) (loc : Ns) (σ : State) (tr : List Err),
+      (∀ e ∈ evs, ∀ mask, e ≠ .tryExcept mask) →
+      (execEvsT F imp sc evs mode saved loc σ tr).2 = tr := by
+  intro evs
+  induction evs with
+  | nil =>
+    intro mode saved loc σ tr _
+    cases mode with
+    | raising x d r => cases x <;> simp only [execEvsT]
+    | run => simp only [execEvsT]
+    | skipping d r => simp only [execEvsT]
+  | cons ev rest ih =>
+    intro mode saved loc σ tr hn
+    have hr : ∀ e ∈ rest, ∀ mask, e ≠ .tryExcept mask := fun e he => hn e (List.mem_cons_of_mem _ he)
+    have h0 : ∀ mask, ev ≠ .tryExcept mask := hn ev (List.mem_cons_self ..)
+    cases mode with
+    | raising x d r =>
+      cases ev <;> simp only [execEvsT]
+      case tryExcept mask => exact absurd rfl (h0 mask)
+      case leave =>
+        cases r with
+        | succ r' => exact ih _ _ _ _ _ hr
+        | zero => cases saved with
+          | nil => rfl
+          | cons sl more => exact ih _ _ _ _ _ hr
+      all_goals exact ih _ _ _ _ _ hr
+    | skipping d r =>
+      cases ev <;> simp only [execEvsT]
+      case tryEnd => cases d <;> exact ih _ _ _ _ _ hr
+      case tryElse => cases d <;> exact ih _ _ _ _ _ hr
+      case leave =>
+        cases r with
+        | succ r' => exact ih _ _ _ _ _ hr
+        | zero => cases saved with
+          | nil => rfl
+          | cons sl more => exact ih _ _ _ _ _ hr
+      all_goals exact ih _ _ _ _ _ hr
+    | run =>
+      cases ev <;> simp only [execEvsT]
+      all_goals ((repeat' split) <;> first | exact ih _ _ _ _ _ hr | rfl)
+
+/-- a function without a handler catches nothing, in whatever state it is called -/
+theorem callCaught_nil (F : Facts) (m : ModId) (f : Func) (σ : State) (h : hasHandler f = false) :
+    callCaught F m f σ = [] := by
+  unfold callCaught
+  apply execEvsT_no_handler
+  intro e he mask heq
+  unfold hasHandler at h
+  rw [List.any_eq_false] at h
+  have := h e he
+  subst heq
+  simp at this
+
+theorem errsBeq_iff (a b : List Err) : errsBeq a b = true ↔ a = b := by
+  induction a generalizing b with
+  | nil => cases b <;> simp [errsBeq]
+  | cons x r ih =>
+    cases b with
+    | nil => simp [errsBeq]
+    | cons y s => simp [errsBeq, errBeq, ih]
+
 
 end Lena.C20
